@@ -149,6 +149,35 @@ def pp_correspondence(ctx, cases, op="pp"):
             ctx.corr_diff(op, {"label": label, "opts": opts, "first_difference": diff}, str(ans)[:200], str(real)[:200])
 
 
+def reload_correspondence(ctx, cases, op="reload"):
+    """cases: [(label, plain dict that was printed, plain dict the real loads gave back for the printed text)].
+    Compares Lean `normDoc` (Model/Reload.lean: the dictionary a reload gives back, about which C04_document_normal_form is
+    proved) with what the real printer + parser + transformer gave, exactly (keys, order, nesting, value types)."""
+    reqs, keep = [], []
+    for label, d, back in cases:
+        if not ascii_lower_ok(d):
+            ctx.count(f"{op}-corr:skipped-nonascii-case")
+            continue
+        try:
+            reqs.append({"op": "reload", "d": core.enc(d)})
+        except TypeError:
+            ctx.count(f"{op}-corr:skipped-unencodable")
+            continue
+        keep.append((label, d, back))
+    try:
+        answers = core.lean_call(reqs)
+    except Exception as ex:
+        ctx.broken.append({"kind": "driver", "detail": str(ex)[:300]})
+        return
+    for (label, d, back), ans in zip(keep, answers):
+        if isinstance(ans, dict) and "bad" in ans:
+            ctx.corr_diff(op, {"label": label}, str(ans)[:200], "(no answer)")
+        elif ans == core.enc(back):
+            ctx.corr_ok(op)
+        else:
+            ctx.corr_diff(op, {"label": label, "printed_dict": json.dumps(core.enc(d))[:1500]}, json.dumps(ans)[:600], json.dumps(core.enc(back))[:600])
+
+
 # ---------------------------------------------------------------------------------------------
 # independent line reader of printed output
 # ---------------------------------------------------------------------------------------------
